@@ -102,10 +102,11 @@ func lemma_cntDel_lt(q vcSeq[bool], lo int, k int, n int) {
 
 //@ func (*Session).send
 //@   requires s.conn != nil && s.Server != nil
-//@   modifies s.sendError, ghost_nwrites(s.conn)
+//@   modifies s.sendError, ghost_nwrites(s.conn), ghost_lastwrite(s.conn)
 //@   ensures old(s.sendError) != nil ==> s.sendError != nil
 //@   ensures (ghost_nwrites(s.conn) == old(ghost_nwrites(s.conn)) + 1 && s.sendError == old(s.sendError)) || s.sendError != nil
-//@   serves C13
+//@   ensures[verbatim C02] s.sendError == nil ==> ghost_lastwrite(s.conn) == msg + "\r\n"
+//@   serves C13 C02
 
 //@ func (*Session).parseCmd
 //@   serves C13
@@ -155,26 +156,27 @@ func lemma_cntDel_lt(q vcSeq[bool], lo int, k int, n int) {
 //@   serves C13
 
 // Ghost: the number of successful writes to a connection (owned by the engine's model of fmt.Fprint).
-func ghost_nwrites(w io.Writer) int { panic("ghost") }
+func ghost_nwrites(w io.Writer) int      { panic("ghost") }
+func ghost_lastwrite(w io.Writer) string { panic("ghost") }
 
 // sendMessage / sendMessageTop: stream a message; they change nothing but the send error and the
 // write counter.  (Content fidelity is C02.)
 //@ func (*Session).sendMessage
 //@   requires spec_valid(s) && msg != nil
-//@   modifies s.sendError, ghost_nwrites(s.conn), allof(ghost_srcContent)
+//@   modifies s.sendError, ghost_nwrites(s.conn), ghost_lastwrite(s.conn), allof(ghost_srcContent)
 //@   loop 1: invariant true
 //@   serves C13 C02
 
 //@ func (*Session).sendMessageTop
 //@   requires spec_valid(s) && msg != nil
-//@   modifies s.sendError, ghost_nwrites(s.conn), allof(ghost_srcContent)
+//@   modifies s.sendError, ghost_nwrites(s.conn), ghost_lastwrite(s.conn), allof(ghost_srcContent)
 //@   loop 1: invariant true
 //@   serves C13 C02
 
 // AUTHORIZATION: the snapshot is taken exactly here (PASS / APOP), nothing is removed.
 //@ func (*Session).authorizationHandler
 //@   requires I_pop(s) && s.state == AUTHORIZATION
-//@   modifies s.state, s.user, s.conn, s.reader, s.Server.tlsState, s.logger, s.messages, s.retain, s.msgCount, s.sendError, ghost_nwrites(s.conn), ghost_nlisted(s.store), ghost_listedBoxes(s.store)
+//@   modifies s.state, s.user, s.conn, s.reader, s.Server.tlsState, s.logger, s.messages, s.retain, s.msgCount, s.sendError, ghost_nwrites(s.conn), ghost_lastwrite(s.conn), ghost_nlisted(s.store), ghost_listedBoxes(s.store)
 //@   ensures I_pop(s)
 //@   ensures[noRemoval] storage.Ghost_nremoved(s.store) == old(storage.Ghost_nremoved(s.store))
 //@   ensures[login] s.state == TRANSACTION ==> (cmd == "PASS" || cmd == "APOP") && s.user != "" || s.state == TRANSACTION && cmd == "APOP"
@@ -184,7 +186,7 @@ func ghost_nwrites(w io.Writer) int { panic("ghost") }
 // RSET sets all; only QUIT removes anything, and it removes exactly the marked messages.
 //@ func (*Session).transactionHandler
 //@   requires I_pop(s) && s.state == TRANSACTION
-//@   modifies s.state, s.retain, elems(s.retain), s.msgCount, s.sendError, ghost_nwrites(s.conn), ghost_nremoved(s.store), ghost_rmBoxes(s.store), ghost_rmIDs(s.store), allof(ghost_srcContent)
+//@   modifies s.state, s.retain, elems(s.retain), s.msgCount, s.sendError, ghost_nwrites(s.conn), ghost_lastwrite(s.conn), ghost_nremoved(s.store), ghost_rmBoxes(s.store), ghost_rmIDs(s.store), allof(ghost_srcContent)
 //@   ensures I_pop(s) && (s.state == TRANSACTION || s.state == QUIT)
 //@   ensures[quitOnly] storage.Ghost_nremoved(s.store) != old(storage.Ghost_nremoved(s.store)) ==> cmd == "QUIT" && s.state == QUIT
 //@   ensures[quitRemovesMarked] cmd == "QUIT" ==> s.state == QUIT &&
